@@ -47,9 +47,14 @@ def make_classes():
         def _load(self, it, idx, ctx):
             assert 0 <= idx < self.n, f"index {idx} out of range"
             c = nonce()
+            me = self.base + int(idx)
+            # what this loader can see in the context it was handed: entries recorded for ANOTHER sample are stale
+            stale = ctx is not None and any(isinstance(v, Tag) and v[1] != me for v in ctx.values())
             if it == "x" and ctx is not None:
-                ctx["k"] = Tag(("rec", self.base + int(idx), c))
-            return Tag((it, self.base + int(idx), c))
+                ctx["k"] = Tag(("rec", me, c))
+                if me % 2 == 1:
+                    ctx["odd"] = Tag(("rec", me, c))  # a key only some samples record
+            return Tag((it, me, c, bool(stale)))
 
         def getitem_x(self, idx, ctx=None):
             return self._load("x", idx, ctx)
@@ -75,7 +80,7 @@ def make_classes():
                 c = nonce()
                 if "x" in g and ctx is not None:
                     ctx["k"] = Tag(("rec", vals[0][1], c))
-                return tuple(Tag((it, v[1], c)) for it, v in zip(g, vals))
+                return tuple(Tag((it, v[1], c, any(len(u) > 3 and u[3] for u in vals))) for it, v in zip(g, vals))
 
             return fn
 
@@ -85,7 +90,7 @@ def make_classes():
                 c = nonce()
                 if it == "x" and ctx is not None:
                     ctx["k"] = Tag(("rec", v[1], c))
-                return Tag((it, v[1], c))
+                return Tag((it, v[1], c, len(v) > 3 and v[3]))
 
             return fn
 
@@ -181,7 +186,9 @@ def decode_sample(raw, n0):
         else:
             out.append(dict(it="other", s=-1, cid=0))
     n1 = max([n0] + [o["cid"] for o in out] + [v[2] for v in (ctx or {}).values() if isinstance(v, Tag)])
-    ctxfresh, ctxs = True, []
+    # a loader saw an entry of another sample in the context it was handed
+    ctxfresh = not any(isinstance(v, Tag) and len(v) > 3 and v[3] for v in seq)
+    ctxs = []
     if ctx is not None:
         for k, v in ctx.items():
             # an entry is fresh iff it was recorded by a loader call of this access
